@@ -229,7 +229,8 @@ def _expand(arg):
 BYSTANDERS = [("GET", "/save-state", None), ("GET", "/full-metrics", None), ("GET", "/metrics", None), ("POST", "/{id}/keep-alive", None),
               ("GET", "/{id}/session-results", None), ("GET", "/{id}/flat-session-results", None),
               ("POST", "/{id}/run-step", {"settings": {}}), ("POST", "/{id}/run-step", None), ("POST", "/{id}/run-steps", {"numberSteps": 2, "settings": {}}),
-              ("POST", "/{id}/stream-steps", {"settings": {}}), ("POST", "/{id}/stream-steps", None), ("POST", "/start-instance", None)]
+              ("POST", "/{id}/stream-steps", {"settings": {}}), ("POST", "/{id}/stream-steps", None), ("POST", "/start-instance", None),
+              ("POST*150", "/{id}/run-step", {"settings": {}}), ("POST*150", "/{id}/run-steps", {"numberSteps": 1, "settings": {}})]      # (size ladder: refused again and again)
 
 
 def hold_cases():
@@ -257,6 +258,20 @@ def hold_cases():
                 first = next(it)                                                  # the stream is in progress and stays open
                 c2 = app.test_client()
                 kw = {} if body is None else {"json": body}
+                if method.startswith("POST*"):
+                    served = None
+                    for rep in range(int(method.split("*")[1])):
+                        r = c2.post(path.replace("{id}", iid), **kw)
+                        if r.status_code == 200:
+                            served = rep
+                            break
+                    if served is not None:
+                        out.append(("hold/stepping-request-served-while-a-stream-is-open/%s" % label, case, "attempt #%d of %s -> 200" % (served + 1, label)))
+                        continue
+                    r2 = c2.post("/%s/run-step" % iid, json={"settings": {}})
+                    if r2.status_code == 200:
+                        out.append(("hold/lock-lost-after/%s" % label, case, "after %s a run-step is served" % label))
+                    continue
                 r = c2.open(path.replace("{id}", iid), method=method, **kw)
                 try:
                     srv.read_stream(r, 50)
@@ -410,7 +425,7 @@ def run(ctx):
         "states": total, "transitions": total, "traces_validated_against_impl": total,
         "preemption_bound": bound, "preemption_bound_small_pairs": 2, "preemption_bound_run-step+run-step": 3 if ctx.tier == "thorough" else 2, "max_scheduling_points": maxpts, "request_combinations": ["+".join(k) for k in combos_all],
         "distinct_outcomes_per_combination": {k: len(v) for k, v in outcomes.items()},
-        "release_cases": 8, "hold_cases": 2 * len(BYSTANDERS) - 1,
+        "release_cases": 8, "hold_cases": 2 * len(BYSTANDERS) - 1, "hold_case_repetitions": 150,
         "samples": [{"kinds": jobs[1][0], "schedule_prefix": jobs[1][2]}, {"kinds": jobs[-1][0], "schedule_prefix": jobs[-1][2]}],
         "rule": "every schedule with <= %d preemptions of two concurrent stepping requests (all 6 unordered kind pairs, and pairs with a request that has no JSON body at <= 1%s) at the source lines of the stepping "
                 "handlers, the streamer, lock/unlock/is_locked/try_lock and the session-touching lines of bptk.run_step; plus 8 sequential release cases and 23 hold cases (a stream in progress x 12 bystander requests x with/without a state adapter: the lock is kept, the stream undisturbed)" % (
